@@ -10,15 +10,22 @@ use verif_harness::*;
 
 // a writer thread held inside its journal critical section (pause point `write.locked`) while a
 // journal rotation is requested on another thread
-/// 0 = hold the racing writer at `write.locked` (inside its critical section), 1 = at `write.unlocked`
+/// 0 = hold the racing writer at `write.locked` (inside its critical section), 2 = at `write.drawn` (seqno drawn, item not applied), 1 = at `write.unlocked`
 /// (right after it left the critical section: everything it wrote must be in the memtables by then)
 static RACE_POINT: std::sync::atomic::AtomicUsize = std::sync::atomic::AtomicUsize::new(0);
 static RACE_PARKED: std::sync::atomic::AtomicBool = std::sync::atomic::AtomicBool::new(false);
 static RACE_GO: std::sync::atomic::AtomicBool = std::sync::atomic::AtomicBool::new(false);
 thread_local! { static RACE_WRITER: std::cell::Cell<bool> = std::cell::Cell::new(false); }
+thread_local! { static RACE_INGEST: std::cell::Cell<bool> = std::cell::Cell::new(false); }
+static ING_PARKED: std::sync::atomic::AtomicBool = std::sync::atomic::AtomicBool::new(false);
+static ING_GO: std::sync::atomic::AtomicBool = std::sync::atomic::AtomicBool::new(false);
 fn race_hook(name: &'static str) {
     use std::sync::atomic::Ordering;
-    let want = if RACE_POINT.load(Ordering::Acquire) == 0 { "write.locked" } else { "write.unlocked" };
+    let want = match RACE_POINT.load(Ordering::Acquire) { 0 => "write.locked", 1 => "write.unlocked", _ => "write.drawn" };
+    if name == "ingest.locked" && RACE_INGEST.with(|w| w.get()) {
+        ING_PARKED.store(true, Ordering::Release);
+        while !ING_GO.load(Ordering::Acquire) { std::thread::sleep(std::time::Duration::from_millis(1)); }
+    }
     if name == want && RACE_WRITER.with(|w| w.get()) {
         RACE_PARKED.store(true, Ordering::Release);
         while !RACE_GO.load(Ordering::Acquire) { std::thread::sleep(std::time::Duration::from_millis(1)); }
@@ -616,6 +623,64 @@ fn real_rotation_probe() -> Option<Failure> {
     }
 }
 
+/// A bulk ingestion inside `Ingestion::finish` (held at `ingest.locked`: past its acquisition of the journal lock)
+/// while a writer of the same keyspace starts.  The writer must wait for the journal lock: otherwise it draws its
+/// seqno, the ingestion's tables get a higher one, the keyspace looks flushed beyond a write that is still only in
+/// the journal, and the next journal rotation + maintenance reclaims the journal that holds it.
+fn ingest_race_probe() -> Option<Failure> {
+    use std::sync::atomic::Ordering;
+    let scratch = Scratch::new("ingrace");
+    let dir = scratch.join("db");
+    let db = Database::builder(&dir).worker_threads_unchecked(0).open().ok()?;
+    let a = db.keyspace("a", KeyspaceCreateOptions::default).ok()?;
+    a.insert("early", "v").ok()?;
+    RACE_PARKED.store(false, Ordering::Release); RACE_GO.store(false, Ordering::Release);
+    ING_PARKED.store(false, Ordering::Release); ING_GO.store(false, Ordering::Release);
+    RACE_POINT.store(2, Ordering::Release);
+    let mut writer_inside = false;
+    let mut harness_err: Option<String> = None;
+    std::thread::scope(|sc| {
+        let ing_t = sc.spawn(|| -> Result<(), String> {
+            RACE_INGEST.with(|w| w.set(true));
+            let mut ing = a.start_ingestion().map_err(|e| format!("{e:?}"))?;
+            ing.write("ingested", "i").map_err(|e| format!("{e:?}"))?;
+            ing.finish().map_err(|e| format!("{e:?}"))
+        });
+        let t0 = std::time::Instant::now();
+        while !ING_PARKED.load(Ordering::Acquire) && !ing_t.is_finished() && t0.elapsed() < std::time::Duration::from_secs(30) { std::thread::sleep(std::time::Duration::from_millis(1)); }
+        if !ING_PARKED.load(Ordering::Acquire) { ING_GO.store(true, Ordering::Release); RACE_GO.store(true, Ordering::Release); harness_err = Some(format!("ingestion did not reach ingest.locked: {:?}", ing_t.join())); return; }
+        let a2 = a.clone();
+        let wt = sc.spawn(move || { RACE_WRITER.with(|w| w.set(true)); a2.insert("late", "acknowledged") });
+        let t1 = std::time::Instant::now();
+        while !RACE_PARKED.load(Ordering::Acquire) && t1.elapsed() < std::time::Duration::from_millis(300) { std::thread::sleep(std::time::Duration::from_millis(1)); }
+        writer_inside = RACE_PARKED.load(Ordering::Acquire);
+        ING_GO.store(true, Ordering::Release);
+        let ir = ing_t.join();
+        RACE_GO.store(true, Ordering::Release);
+        let wr = wt.join();
+        if !matches!(ir, Ok(Ok(()))) || !matches!(wr, Ok(Ok(()))) { harness_err = Some(format!("ingestion {ir:?}, writer {wr:?}")); }
+    });
+    RACE_POINT.store(0, Ordering::Release);
+    if let Some(e) = harness_err { return Some(Failure { kind: "harness", detail: format!("ingestion-race probe: {e}"), witness: None }); }
+    // seal the journal, reclaim what is flushed, crash
+    if fjall::verif::verif_rotate_journal(&db).is_err() { return None; }
+    if fjall::verif::verif_journal_maintenance(&db).is_err() { return None; }
+    let journals = db.journal_count();
+    let img = scratch.join("crash");
+    copy_dir_sparse(&dir, &img);
+    let got = (|| -> Result<(bool, bool, bool), String> {
+        let d = open(&img)?;
+        let k = d.keyspace("a", KeyspaceCreateOptions::default).map_err(|e| format!("{e:?}"))?;
+        let g = |key: &str| k.get(key).map(|v| v.is_some()).map_err(|e| format!("{e:?}"));
+        Ok((g("early")?, g("ingested")?, g("late")?))
+    })();
+    match got {
+        Ok((true, true, true)) if !writer_inside => None,
+        Ok((e, i, l)) => Some(Failure { kind: "impl-vs-oracle", detail: format!("a writer starting while a bulk ingestion of its keyspace is inside finish(): the writer drew its seqno before the ingestion was done = {writer_inside}; after journal rotation + maintenance ({journals} journal file(s) left) a crash image recovers early={e} ingested={i} late={l} (all three were acknowledged)"), witness: None }),
+        Err(e) => Some(Failure { kind: "impl-vs-oracle", detail: format!("ingestion-race probe: crash image does not open: {e}"), witness: None }),
+    }
+}
+
 fn main() {
     fjall::verif::pause::set(Some(std::sync::Arc::new(race_hook)));
     let args: Vec<String> = std::env::args().collect();
@@ -641,6 +706,7 @@ fn main() {
     let mut hist = BTreeMap::new();
     let mut cases = 0;
     if replay.is_none() && mode == "c04" { if let Some(f) = witness_f13_ingest() { all.push((0, f)); } }
+    if replay.is_none() && (mode == "c10" || mode == "c02") { if let Some(f) = ingest_race_probe() { all.push((0, f)); } *hist.entry("ingestion-racing-a-writer-probe".to_string()).or_insert(0) += 1; }
     if replay.is_none() && (mode == "c10" || mode == "c02") { if let Some(f) = real_rotation_probe() { all.push((0, f)); } *hist.entry("worker-path-journal-rotation-probe".to_string()).or_insert(0) += 1; }
     for cs in seeds {
         let res = std::panic::catch_unwind(std::panic::AssertUnwindSafe(|| run_case(cs, &mut lean, &mut hist, &mut samples, thorough, &mode)));
